@@ -154,3 +154,16 @@ func lemmaEnvoyFiltersMergeOrder(ps *PushContext, matched []*EnvoyFilterWrapper,
 	verif.Assert("ties-only-on-same-qualified-name", less(i, j) || less(j, i) ||
 		matched[i].Name+"."+matched[i].Namespace == matched[j].Name+"."+matched[j].Namespace)
 }
+
+// Network gateways are kept as a set of values: two gateways with the same address and port but another
+// cluster, network, HBONE port or service account are different members of it. SortGateways is fed in the
+// iteration order of that set and does not use a stable sort, so it must not tie two different gateways.
+//
+//verif:lemma
+//verif:prop C17
+func lemmaSortGateways(a, b, c NetworkGateway) {
+	cmp := verif.Closure0[func(a, b NetworkGateway) int]("SortGateways$1")
+	verif.Assert("total-preorder", threeWay(cmp(a, b), cmp(b, a), cmp(b, c), cmp(c, b), cmp(a, c), cmp(c, a)))
+	verif.Assert("reflexive", cmp(a, a) == 0)
+	verif.Assert("ties-only-on-equal-gateways", cmp(a, b) != 0 || a == b)
+}
